@@ -665,3 +665,38 @@ func (d *DAG) canon() string {
 	sort.Strings(parts)
 	return strings.Join(parts, "|")
 }
+
+// MergeSameDigest returns a copy of d in which nodes that share a digest (the same bytes listed under
+// several media types) are merged into one node — what a digest-addressed store (an OCI layout) holds.
+// Manifest bytes are unchanged; only the ground-truth node set and edge lists are merged.
+func (d *DAG) MergeSameDigest() *DAG {
+	canon := map[digest.Digest]int{}
+	remap := make([]int, len(d.Nodes))
+	out := &DAG{Name: d.Name + "+merged"}
+	for _, n := range d.Nodes {
+		if id, ok := canon[n.Desc.Digest]; ok {
+			remap[n.ID] = id
+			continue
+		}
+		c := *n
+		c.ID = len(out.Nodes)
+		canon[n.Desc.Digest] = c.ID
+		remap[n.ID] = c.ID
+		out.Nodes = append(out.Nodes, &c)
+	}
+	for _, n := range out.Nodes {
+		var succ []int
+		seen := map[int]bool{}
+		for _, s := range n.Succ {
+			if m := remap[s]; !seen[m] {
+				seen[m] = true
+				succ = append(succ, m)
+			}
+		}
+		n.Succ = succ
+		if n.Subject >= 0 {
+			n.Subject = remap[n.Subject]
+		}
+	}
+	return out
+}
